@@ -5,4 +5,6 @@ INIT Init
 NEXT Next
 INVARIANT DirTiles
 INVARIANT DecodeOK
+INVARIANT SubsetLaws
+INVARIANT ExportSubsets
 INVARIANT ExportOK
